@@ -365,6 +365,9 @@ size_t varintAdaptiveEncodeWith(uint8_t *dst, const uint64_t *values,
         varintPFORMeta pforMeta;
         encodedSize = varintPFOREncode(dst + offset, values, (uint32_t)count,
                                        VARINT_PFOR_THRESHOLD_95, &pforMeta);
+        if (encodedSize == 0) {
+            return 0; /* PFOR encoder failed (out of memory) */
+        }
 
         if (meta) {
             meta->encodingMeta.pforMeta = pforMeta;
@@ -374,6 +377,9 @@ size_t varintAdaptiveEncodeWith(uint8_t *dst, const uint64_t *values,
 
     case VARINT_ADAPTIVE_DICT: {
         encodedSize = varintDictEncode(dst + offset, values, count);
+        if (encodedSize == 0) {
+            return 0; /* Dictionary encoder failed (out of memory) */
+        }
         break;
     }
 
@@ -386,7 +392,11 @@ size_t varintAdaptiveEncodeWith(uint8_t *dst, const uint64_t *values,
 
         for (size_t i = 0; i < count; i++) {
             if (values[i] < VARINT_BITMAP_MAX_VALUE) {
-                varintBitmapAdd(vb, (uint16_t)values[i]);
+                if (!varintBitmapAdd(vb, (uint16_t)values[i]) &&
+                    !varintBitmapContains(vb, (uint16_t)values[i])) {
+                    varintBitmapFree(vb);
+                    return 0; /* Out of memory while building bitmap */
+                }
             }
         }
 
